@@ -6,6 +6,7 @@ Require Import Num Result C14_Count C14_Interp C14_Index C14_Grid C14_Lerp C14_E
                C14_Main C14_Witness.
 Import ListNotations.
 Local Open Scope R_scope.
+Set Warnings "-inexact-float".
 
 Definition ex_conf0 : list R := [1; 1; 0; 1; 1; 0; 1; 0].
 Definition ex_conf1 : list R := [0; 0; 1; 0; 0; 0; 0; 1].
@@ -58,7 +59,7 @@ Proof. intros H. unfold t_new. rewrite grid_nth by lia. replace (INR (12 - 1)) w
 Lemma ex_frame_count : exists o, interpolate R_ops wit ex_body (Some 15%float) Cubic = Ok o /\ length (o_data R_ops o) = 12%nat.
 Proof. destruct (ex_interpolated Cubic) as [o [_ [Ho _]]]. exists o. split; [exact Ho|].
   destruct (frame_count_body wit ex_body _ _ o Ho) as [n [Hn [_ [Hl _]]]].
-  cbn in Hn. rewrite ex_count15 in Hn. injection Hn as <-. exact Hl. Qed.
+  change (new_frame_count 8 15%float 10%float = Ok n) in Hn. rewrite ex_count15 in Hn. injection Hn as <-. exact Hl. Qed.
 Lemma ex_half_even : new_frame_count 5 15%float 10%float = Ok 8%nat /\ new_frame_count 3 15%float 10%float = Ok 4%nat /\
                      new_frame_count 7 24%float 29.97%float = Ok 6%nat.
 Proof. vm_compute. repeat split. Qed.
